@@ -189,3 +189,6 @@ def register():
 
 
 register()
+
+import solver_props  # noqa: E402
+RUNNERS.update(solver_props.RUNNERS)
